@@ -1,8 +1,9 @@
 (* C23 proofs, part 2: leaf-page accessors on arbitrary page bytes.
-   For every 16 KiB page accepted by LeafNode::from_page and every index, slot_at / key_at / value_len_at
-   panic exactly when the slot announced by the stored cell_count lies beyond the page (leaf_slot_oob), and
-   value_at additionally when the decoded value length overflows the usize addition (leaf_value_ovf);
-   in every other case they return a value or an error, and returned slices lie inside the page. *)
+   For every page accepted by LeafNode::from_page (which since c8c46cc checks the slot geometry) and every
+   index, slot_at / key_at / value_len_at / value_at return a value or an error, and returned slices lie
+   inside the page.  The case lemmas are stated for any 16 KiB byte string: there the accessors take their
+   Panic branch exactly when the slot announced by the stored cell_count lies beyond the page (leaf_slot_oob,
+   the class of the former finding F-C23-1) - from_page excludes that. *)
 From Coq Require Import ZArith List Bool Lia ZifyBool.
 From TV Require Import Lib.MachInt Lib.MachIntFacts Gen.PageConsts Gen.LeafLayout Gen.Varint
   Model.StoredBytes Model.PageAccess Proof.StoredBytes.
@@ -28,6 +29,20 @@ Qed.
 Lemma node_from_page_len want d u : node_from_page want d = Ok u -> blen d = PAGE_SIZE.
 Proof.
   unfold node_from_page. destruct (Z.eqb_spec (blen d) PAGE_SIZE) as [E|E]; [auto | discriminate].
+Qed.
+
+Lemma btree_from_page_total_l : forall want cs ss d, value_or_error (btree_from_page want cs ss d).
+Proof.
+  intros want cs ss d. unfold btree_from_page. pose proof (node_from_page_total_l want d) as H.
+  destruct (node_from_page want d); cbn [bind]; try contradiction; try exact I.
+  destruct (slot_geometry_ok d cs ss); exact I.
+Qed.
+Lemma btree_from_page_inv want cs ss d u : btree_from_page want cs ss d = Ok u ->
+  blen d = PAGE_SIZE /\ slot_geometry_ok d cs ss = true.
+Proof.
+  unfold btree_from_page. destruct (node_from_page want d) as [x| | |] eqn:E; cbn [bind]; try discriminate.
+  destruct (slot_geometry_ok d cs ss) eqn:G; [|discriminate]. intros _.
+  split; [exact (node_from_page_len want d x E) | reflexivity].
 Qed.
 
 Lemma leaf_off i : leaf_slot_offset i = 24 + 8 * i.
@@ -66,10 +81,10 @@ Proof.
     change (256 ^ 2) with 65536 in *. split; [apply H1 | apply H2]; lia.
 Qed.
 
-Lemma leaf_slot_at_panic_iff_l : forall d i, leaf_from_page d = Ok tt -> bytes_ok d = true -> 0 <= i ->
+Lemma leaf_slot_at_panic_iff_l : forall d i, blen d = PAGE_SIZE -> bytes_ok d = true -> 0 <= i ->
   (leaf_slot_at d i = Panic <-> leaf_slot_oob d i = true).
 Proof.
-  intros d i Hp Hb Hi. apply node_from_page_len in Hp.
+  intros d i Hp Hb Hi.
   destruct (leaf_slot_at_cases d i Hp Hb Hi) as [(O & R)|[(O & _ & R)|(O & _ & _ & p & co & kl & R & _)]];
     rewrite O, R; split; congruence.
 Qed.
@@ -91,10 +106,10 @@ Proof.
     right. exists co, kl. rewrite sub_ok by (apply bslice_ok_true; lia). repeat split; lia.
 Qed.
 
-Lemma leaf_key_at_panic_iff_l : forall d i, leaf_from_page d = Ok tt -> bytes_ok d = true -> 0 <= i ->
+Lemma leaf_key_at_panic_iff_l : forall d i, blen d = PAGE_SIZE -> bytes_ok d = true -> 0 <= i ->
   (leaf_key_at d i = Panic <-> leaf_slot_oob d i = true).
 Proof.
-  intros d i Hp Hb Hi. apply node_from_page_len in Hp.
+  intros d i Hp Hb Hi.
   destruct (leaf_key_at_cases d i Hp Hb Hi) as [(O & R)|(O & [R|(co & kl & _ & _ & _ & R)])];
     rewrite O, R; split; congruence.
 Qed.
@@ -116,10 +131,10 @@ Proof.
 Qed.
 
 (* ------------------------------------------------------------------ value_len_at *)
-Lemma leaf_value_len_at_panic_iff_l : forall d i, leaf_from_page d = Ok tt -> bytes_ok d = true -> 0 <= i ->
+Lemma leaf_value_len_at_panic_iff_l : forall d i, blen d = PAGE_SIZE -> bytes_ok d = true -> 0 <= i ->
   (leaf_value_len_at d i = Panic <-> leaf_slot_oob d i = true).
 Proof.
-  intros d i Hp Hb Hi. apply node_from_page_len in Hp. unfold leaf_value_len_at.
+  intros d i Hp Hb Hi. unfold leaf_value_len_at.
   destruct (leaf_slot_at_cases d i Hp Hb Hi) as [(O & R)|[(O & _ & R)|(O & _ & _ & p & co & kl & R & Hco & Hkl)]];
     rewrite O, R; cbn [bind]; try (split; congruence).
   destruct (Z.ltb_spec (co + kl) PAGE_SIZE) as [L|G]; [|split; congruence].
@@ -130,33 +145,30 @@ Qed.
 (* ------------------------------------------------------------------ value_at *)
 Lemma leaf_value_at_cases d i : blen d = PAGE_SIZE -> bytes_ok d = true -> 0 <= i ->
   (leaf_slot_oob d i = true /\ leaf_value_at d i = Panic) \/
-  (leaf_slot_oob d i = false /\ leaf_value_ovf d i = true /\ leaf_value_at d i = Panic) \/
-  (leaf_slot_oob d i = false /\ leaf_value_ovf d i = false /\
+  (leaf_slot_oob d i = false /\
    (leaf_value_at d i = Err \/
     exists lo len, 0 <= lo /\ 0 <= len /\ lo + len <= PAGE_SIZE /\ leaf_value_at d i = Ok (bslice d lo (lo + len)))).
 Proof.
-  intros Hl Hb Hi. unfold leaf_value_at, leaf_value_ovf.
+  intros Hl Hb Hi. unfold leaf_value_at.
   destruct (leaf_slot_at_cases d i Hl Hb Hi) as [(O & R)|[(O & _ & R)|(O & _ & _ & p & co & kl & R & Hco & Hkl)]];
     rewrite R; cbn [bind].
   - left. auto.
-  - right. right. auto.
-  - right. destruct (Z.ltb_spec (co + kl) PAGE_SIZE) as [L|G]; cbn [andb]; [|right; auto].
+  - right. auto.
+  - right. split; [exact O|].
+    destruct (Z.ltb_spec (co + kl) PAGE_SIZE) as [L|G]; [|left; reflexivity].
     destruct (varint_at_cases d (co + kl) Hb) as [E|(vlen & n & E & Hn & Hv)]; [lia | |]; rewrite E; cbn [bind].
-    + right. auto.
-    + destruct (in_u 64 (co + kl + n + vlen)) eqn:U; cbn [negb].
-      * right. split; [exact O|]. split; [reflexivity|].
-        destruct (Z.leb_spec (co + kl + n + vlen) PAGE_SIZE) as [L2|G2]; [|left; reflexivity].
-        right. exists (co + kl + n), vlen. rewrite sub_ok by (apply bslice_ok_true; lia). repeat split; lia.
-      * left. auto.
+    + left. reflexivity.
+    + destruct (Z.ltb_spec PAGE_SIZE (co + kl + n)) as [C|_]; [lia|].
+      destruct (Z.leb_spec vlen (PAGE_SIZE - (co + kl + n))) as [L2|G2]; [|left; reflexivity].
+      right. exists (co + kl + n), vlen. rewrite sub_ok by (apply bslice_ok_true; lia). repeat split; lia.
 Qed.
 
-Lemma leaf_value_at_panic_iff_l : forall d i, leaf_from_page d = Ok tt -> bytes_ok d = true -> 0 <= i ->
-  (leaf_value_at d i = Panic <-> leaf_slot_oob d i = true \/ leaf_value_ovf d i = true).
+Lemma leaf_value_at_panic_iff_l : forall d i, blen d = PAGE_SIZE -> bytes_ok d = true -> 0 <= i ->
+  (leaf_value_at d i = Panic <-> leaf_slot_oob d i = true).
 Proof.
-  intros d i Hp Hb Hi. apply node_from_page_len in Hp.
-  destruct (leaf_value_at_cases d i Hp Hb Hi)
-    as [(O & R)|[(O & V & R)|(O & V & [R|(lo & len & _ & _ & _ & R)])]]; rewrite R; try rewrite O; try rewrite V;
-    split; try congruence; auto; intros [C|C]; congruence.
+  intros d i Hp Hb Hi.
+  destruct (leaf_value_at_cases d i Hp Hb Hi) as [(O & R)|(O & [R|(lo & len & _ & _ & _ & R)])];
+    rewrite O, R; split; congruence.
 Qed.
 
 (* ------------------------------------------------------------------ results are slices of the page *)
@@ -173,26 +185,27 @@ Proof.
     inversion Hk. subst. exists co, kl. auto.
   - intros v Hv.
     destruct (leaf_value_at_cases d i Hl Hb Hi)
-      as [(_ & R)|[(_ & _ & R)|(_ & _ & [R|(lo & len & H1 & H2 & H3 & R)])]]; rewrite R in Hv; try discriminate.
+      as [(_ & R)|(_ & [R|(lo & len & H1 & H2 & H3 & R)])]; rewrite R in Hv; try discriminate.
     inversion Hv. subst. exists lo, len. auto.
 Qed.
 
-(* ------------------------------------------------------------------ the property outside the two classes *)
-(* a page whose announced slot array fits the page: no index reaches a slot beyond it *)
-Lemma leaf_slots_fit_no_oob d i : PH_SIZE <= blen d -> leaf_slots_fit d = true -> 0 <= i -> leaf_slot_oob d i = false.
+(* ------------------------------------------------------------------ the property, for pages from_page accepts *)
+(* check_slot_geometry: slots_end <= free_start <= free_end <= PAGE_SIZE puts every announced slot inside the page *)
+Lemma leaf_from_page_no_oob d i : leaf_from_page d = Ok tt -> 0 <= i -> leaf_slot_oob d i = false.
 Proof.
-  intros G F Hi. unfold leaf_slots_fit, leaf_slot_oob in *. rewrite (cell_count_ok d G) in *.
-  rewrite !leaf_off in *. unfold SLOT_SIZE, PAGE_SIZE in *.
+  intros Hp Hi. apply btree_from_page_inv in Hp. destruct Hp as (Hl & G).
+  assert (G16 : PH_SIZE <= blen d) by (rewrite Hl; unfold PH_SIZE, PAGE_SIZE; lia).
+  unfold leaf_slot_oob. rewrite (cell_count_ok d G16). rewrite leaf_off.
+  unfold slot_geometry_ok in G. cbv [LEAF_CONTENT_START PAGE_HEADER_SIZE LEAF_HEADER_SIZE SLOT_SIZE PAGE_SIZE] in *.
   destruct (Z.ltb_spec i (le d 2 2)); cbn [andb]; [|reflexivity]. lia.
 Qed.
 
 Lemma leaf_accessors_total_l : forall d i, leaf_from_page d = Ok tt -> bytes_ok d = true -> 0 <= i ->
-  leaf_slot_oob d i = false ->
-  value_or_error (leaf_slot_at d i) /\ value_or_error (leaf_key_at d i) /\ value_or_error (leaf_value_len_at d i) /\
-  (leaf_value_ovf d i = false -> value_or_error (leaf_value_at d i)).
+  value_or_error (leaf_slot_at d i) /\ value_or_error (leaf_key_at d i) /\
+  value_or_error (leaf_value_len_at d i) /\ value_or_error (leaf_value_at d i).
 Proof.
-  intros d i Hp Hb Hi O.
-  apply node_from_page_len in Hp.
+  intros d i Hp Hb Hi. pose proof (leaf_from_page_no_oob d i Hp Hi) as O.
+  apply btree_from_page_inv in Hp. destruct Hp as (Hp & _).
   repeat split.
   - destruct (leaf_slot_at_cases d i Hp Hb Hi) as [(O' & _)|[(_ & _ & R)|(_ & _ & _ & p & co & kl & R & _)]];
       [congruence | |]; rewrite R; exact I.
@@ -203,23 +216,24 @@ Proof.
       [congruence | rewrite R; exact I |]. rewrite R. cbn [bind].
     destruct (Z.ltb_spec (co + kl) PAGE_SIZE) as [L|G]; [|exact I].
     destruct (varint_at_cases d (co + kl) Hb) as [E|(vlen & n & E & _)]; [lia | |]; rewrite E; exact I.
-  - intros V.
-    destruct (leaf_value_at_cases d i Hp Hb Hi)
-      as [(O' & _)|[(_ & V' & _)|(_ & _ & [R|(lo & len & _ & _ & _ & R)])]]; try congruence; rewrite R; exact I.
+  - destruct (leaf_value_at_cases d i Hp Hb Hi) as [(O' & _)|(_ & [R|(lo & len & _ & _ & _ & R)])];
+      [congruence | |]; rewrite R; exact I.
 Qed.
 
-(* ------------------------------------------------------------------ the refutations *)
-(* a page of zeros with type byte 2 and cell_count 2046: slot 2045 would start at byte 16384 *)
+(* ------------------------------------------------------------------ the former witnesses *)
+(* F-C23-1: zeros with type byte 2 and cell_count 2046 - slot 2045 would start at byte 16384.
+   F-C23-2: one cell, key "\1\2\3\4" at 16000 followed by the varint 0xFF FF*8 = u64::MAX (header geometry valid). *)
 Definition leaf_witness_oob : list Z := image 16384 0 [(0, [2; 0; 254; 7])].
-(* one cell: key "\1\2\3\4" at 16000 followed by the varint 0xFF FF*8 = u64::MAX *)
 Definition leaf_witness_ovf : list Z :=
-  image 16384 0 [(0, [2; 0; 1; 0]); (24, [1; 2; 3; 4; 128; 62; 4; 0]); (16000, [1; 2; 3; 4; 255; 255; 255; 255; 255; 255; 255; 255; 255])].
+  image 16384 0 [(0, [2; 0; 1; 0; 32; 0; 128; 62]); (24, [1; 2; 3; 4; 128; 62; 4; 0]);
+                 (16000, [1; 2; 3; 4; 255; 255; 255; 255; 255; 255; 255; 255; 255])].
 
-Lemma leaf_accessors_refuted_l :
-  leaf_from_page leaf_witness_oob = Ok tt /\ bytes_ok leaf_witness_oob = true /\
-  leaf_slot_at leaf_witness_oob 2045 = Panic /\ leaf_key_at leaf_witness_oob 2045 = Panic /\
-  leaf_value_at leaf_witness_oob 2045 = Panic /\ leaf_value_len_at leaf_witness_oob 2045 = Panic /\
+(* the slot accessors would still panic on the first page - it is from_page that now turns it away;
+   the second page is accepted and its hostile value length is now an error *)
+Lemma leaf_former_witnesses_l :
+  bytes_ok leaf_witness_oob = true /\ leaf_slot_at leaf_witness_oob 2045 = Panic /\
+  leaf_from_page leaf_witness_oob = Err /\
   leaf_from_page leaf_witness_ovf = Ok tt /\ bytes_ok leaf_witness_ovf = true /\
-  leaf_slot_oob leaf_witness_ovf 0 = false /\ leaf_key_at leaf_witness_ovf 0 = Ok [1; 2; 3; 4] /\
-  leaf_value_len_at leaf_witness_ovf 0 = Ok 18446744073709551615 /\ leaf_value_at leaf_witness_ovf 0 = Panic.
+  leaf_key_at leaf_witness_ovf 0 = Ok [1; 2; 3; 4] /\
+  leaf_value_len_at leaf_witness_ovf 0 = Ok 18446744073709551615 /\ leaf_value_at leaf_witness_ovf 0 = Err.
 Proof. vm_compute. repeat split. Qed.
